@@ -147,6 +147,19 @@ _ext("C13", "all-roots rule: a loop over roots is left early only by a match")
 _ext("C18", "role wiring of the four roots from the snapshot to Call.updateLocations (LOC-wiring); all-roots rule")
 _ext("C19", "points-to: cached syntax trees are never written (EF-ast-readonly)")
 _ext("C20", "lock pairing dataflow (WEB-lock); documentation/code agreement of maxmem default and minimum (WEB-doc); capture protocol decided capture by capture")
+# round 7 / sweep wave 2 additions
+_ext("C01", "anchoring rule on the regexp syntax trees of every line pattern reachable from scan (RX-anchor); bound idioms on the symbol parser")
+_ext("C02", "anchoring rule on the line patterns (only whole lines of a dump's shape are consumed)")
+_ext("C07", "anchoring rule on the line patterns")
+_ext("C08", "anchoring rule on the race patterns")
+_ext("C10", "reference-automaton comparison and write-in-the-reading-iteration rule for the prefix clause")
+_ext("C11", "call-site coverage: fill is reached only from functions covered by readSlice")
+_ext("C13", "classification rules the ranking is computed from (boundary, probe-result, role wiring, test main; IsPkgMain iff the import path is main)")
+_ext("C15", "gate rules of the sibling post-processing steps (naming changes no other field)")
+_ext("C16", "all-paths rule: a frame line shows the frame's name and its Args through Args.String")
+_ext("C17", "template data: the page named after the receiver renders the receiver")
+_ext("C18", "map-key rule on the prefix helpers; result roles of isGoModule; the skip tests use their own tables")
+_ext("C19", "special renderings (<nil>, _, pseudo-name) exist on some path; named types are not taken for map/chan")
 for k in list(CLAIMED): NA.pop(k, None)
 try:
     exec(open(os.path.join(V, "tools", "manifest_table.py")).read())
